@@ -119,11 +119,48 @@ def parseImpl? (remote : List Nat) (line : String) : Option Impl :=
     pure { evs, snap := { map, index, world, rel, dead, remote }, queries := " ".intercalate rest }
   | _ => none
 
+/-- what the harness read off the real tables around a change / notify region -/
+structure RegionObs where
+  gl : List Nat
+  world : List (Nat × List Nat)
+  pay : List Nat
+  ex : Bool
+
+def parseRegionObs? (impl : String) : Option RegionObs :=
+  match words impl with
+  | ["o", gl, wd, pay, ex] => do
+    let gl ← parsePlus? (← field? gl "gl=")
+    let world ← parseSemi? (← field? wd "world=") parseNatList?
+    let pay ← parsePlus? (← field? pay "pay=")
+    pure { gl, world, pay, ex := (← field? ex "ex=") == "1" }
+  | _ => none
+
+/-- a change whose notifications are still to be sent, as observed on the implementation -/
+structure OPend where
+  isJoin : Bool
+  s : Nat
+  g : Nat
+  actors : List Nat
+  gl : List Nat
+  world : List (Nat × List Nat)
+
+def worldEvs (world : List (Nat × List Nat)) (isJoin : Bool) (s g : Nat) (actors : List Nat) : List Ev :=
+  (((AList.get world s).getD []) ++ ((AList.get world allScopes).getD [])).map
+    (fun m => Ev.mk m isJoin s g actors)
+
+def owed (p : OPend) (worldNow : List (Nat × List Nat)) : List Ev × List Ev :=
+  let ge := p.gl.map (fun m => Ev.mk m p.isJoin p.s p.g p.actors)
+  (ge ++ worldEvs worldNow p.isJoin p.s p.g p.actors, ge ++ worldEvs p.world p.isJoin p.s p.g p.actors)
+
 structure DState where
   st : State := init
   prev : Option State := none     -- previous implementation snapshot
   acc : List Ev := []             -- E-THR: notifications since the last sync line
   removed : List (Key × List Nat) := []   -- E-THR: removal records of the running leave_all
+  pend : List (Nat × Pending) := []       -- E-THR, model side: per thread, entry done / notify pending
+  opend : List (Nat × OPend) := []        -- E-THR, oracle side: the same from the implementation's data
+  owedCode : List Ev := []                -- pre-F6 behaviour: group listeners at the change, world at notify
+  owedStrict : List Ev := []              -- the property: every recipient fixed at the change region
 
 def parseNats? (s : String) : Option (List Nat) := natList? s
 
@@ -174,8 +211,16 @@ def step (d : DState) (op impl : String) : DState × StepOut :=
     | none => ({ d with acc := [] }, { model, oracle := ["unparsable"] })
     | some im =>
       let o2 := if im.queries == showQueries im.snap then [] else ["query-disagrees-with-membership"]
-      ({ d with acc := [], prev := some im.snap },
-       { model, oracle := failing im.snap ++ o2, nontrivial := w == ["tend"] && !evs.isEmpty })
+      -- who was owed what, computed from the listener lists the harness saw at each region
+      let aliveI := fun (e : Ev) => !im.snap.dead.contains e.monitor
+      let o3 := if w != ["tend"] then [] else
+        let got := showEvs (im.evs.filter aliveI)
+        if got == showEvs (d.owedStrict.filter aliveI) then []
+        -- the behaviour before the F6 fix: group listeners at the change, world listeners at notify time
+        else if got == showEvs (d.owedCode.filter aliveI) then ["world-recipients-read-at-notify-time"]
+        else ["notification-recipients-not-fixed-at-change"]
+      ({ d with acc := [], prev := some im.snap, pend := [], opend := [], owedCode := [], owedStrict := [] },
+       { model, oracle := failing im.snap ++ o2 ++ o3, nontrivial := w == ["tend"] && !evs.isEmpty })
   | "case" :: _ | "thrcase" :: _ =>
     let im := parseImpl? [] impl
     ({ st := init, prev := im.map (·.snap) },
@@ -185,13 +230,60 @@ def step (d : DState) (op impl : String) : DState × StepOut :=
          | none => ["unparsable"] })
   | _ =>
     if op.startsWith "t:" then
-      -- E-THR: an op linearised by the harness at the region that holds its locks
-      let w' := words (op.drop 2).toString
+      -- E-THR: a region linearised by the harness; `@tid` = the thread that ran it
+      let w0 := words (op.drop 2).toString
+      let (tid, w') := match w0 with
+        | t :: rest => if t.startsWith "@" then ((t.drop 1).toString.toNat?.getD 0, rest) else (0, w0)
+        | [] => (0, [])
+      let obs := parseRegionObs? impl
+      let echo : String := if obs.isSome then impl else "-"
+      let dropT := fun {α : Type} (l : List (Nat × α)) => l.filter (fun p => p.1 != tid)
+      match w', obs with
+      | ["join", s, g, as], some o =>
+        match s.toNat?, g.toNat?, natList? as with
+        | some s, some g, some as =>
+          let (st', p) := joinEntry d.st s g as
+          let op' : List (Nat × OPend) := if o.pay.isEmpty then [] else [(tid, ⟨true, s, g, o.pay, o.gl, o.world⟩)]
+          ({ d with st := st', pend := dropT d.pend ++ (p.map (tid, ·)).toList, opend := dropT d.opend ++ op' },
+           { model := echo, nontrivial := true })
+        | _, _, _ => (d, { model := "bad-op" })
+      | ["leave", s, g, as], some o =>
+        match s.toNat?, g.toNat?, natList? as with
+        | some s, some g, some as =>
+          let (st', p) := leaveEntry d.st s g as
+          let op' : List (Nat × OPend) := if o.ex then [(tid, ⟨false, s, g, as, o.gl, o.world⟩)] else []
+          ({ d with st := st', pend := dropT d.pend ++ (p.map (tid, ·)).toList, opend := dropT d.opend ++ op' },
+           { model := echo, nontrivial := true })
+        | _, _, _ => (d, { model := "bad-op" })
+      | [kind], some o =>
+        if kind == "joinnotify" || kind == "leavenotify" then
+          let evs := (d.pend.filter (fun p => p.1 == tid)).flatMap (fun p => notifyPending p.2)
+          let ow := (d.opend.filter (fun p => p.1 == tid)).map (fun p => owed p.2 o.world)
+          ({ d with pend := dropT d.pend, opend := dropT d.opend, acc := d.acc ++ evs,
+                    owedCode := d.owedCode ++ ow.flatMap (·.1), owedStrict := d.owedStrict ++ ow.flatMap (·.2) },
+           { model := echo, nontrivial := true })
+        else (d, { model := "bad-op" })
+      | ["leavekey", a, s, g], some o =>
+        match a.toNat?, s.toNat?, g.toNat? with
+        | some a, some s, some g =>
+          let (st', r) := leaveKey d.st a (s, g)
+          ({ d with st := st', removed := d.removed ++ r.toList,
+                    opend := d.opend ++ [(tid, ⟨false, s, g, [a], o.gl, o.world⟩)] },
+           { model := echo, nontrivial := true })
+        | _, _, _ => (d, { model := "bad-op" })
+      | ["finishleave", a], some o =>
+        let a := a.toNat?.getD 0
+        let (st', evs) := finishLeave d.st a d.removed
+        let ow := (d.opend.filter (fun p => p.1 == tid)).map (fun p => owed p.2 o.world)
+        ({ d with st := st', acc := d.acc ++ evs, removed := [], opend := dropT d.opend,
+                  owedCode := d.owedCode ++ ow.flatMap (·.1), owedStrict := d.owedStrict ++ ow.flatMap (·.2) },
+         { model := echo, nontrivial := true })
+      | _, _ =>
       let mop : Option (Option Op) := match w' with
         | "skip" :: _ => some none
         | ["actor", _, "L"] => some none
         | _ => (parseOp? w').map some
-      -- the regions of the exit sequence
+      -- the other regions of the exit sequence and the post-lock clean-up regions
       let fine : Option DState := match w' with
         | ["dead", a] => a.toNat?.map fun a => { d with st := markDead d.st a }
         | ["demontake", a] => a.toNat?.map fun a => { d with st := demonTake d.st a }
@@ -218,14 +310,17 @@ def step (d : DState) (op impl : String) : DState × StepOut :=
           match s.toNat?, a.toNat? with
           | some s, some a => some { d with st := monitorScopeRecheck d.st s a }
           | _, _ => none
-        | ["joincleanup", as] => (natList? as).map fun as => { d with st := joinCleanup d.st as }
+        | ["joincleanup", s, g, as] =>
+          match s.toNat?, g.toNat?, natList? as with
+          | some s, some g, some as => some { d with st := joinCleanup d.st s g as }
+          | _, _, _ => none
         | ["finishleave", a] => a.toNat?.map fun a =>
             let (st', evs) := finishLeave d.st a d.removed
             { d with st := st', acc := d.acc ++ evs, removed := [] }
         | _ => none
       match w' with
       | ["waited", a] =>
-        -- the exiter's wait() returned: C11.exit_race_no_zombie says it owns nothing now
+        -- `Stopped` is published: C11.exit_race_no_zombie says the exiter owns nothing now
         let a := a.toNat?.getD 0
         let z := d.st.map.any (fun p => p.2.members.contains a || p.2.listeners.contains a) ||
                  d.st.world.any (fun p => p.2.contains a)
